@@ -512,6 +512,22 @@ func mapOrderFamily(w *World, prop string) ([]*Obligation, []string) {
 		if exempt[name] != "" || len(fn.Blocks) == 0 {
 			continue
 		}
+		// a map walked through an iterator (reflect.Value.MapRange) is walked in Go's map order like a
+		// range loop, but the loop has another shape (Next/Key/Value) whose effects this family does
+		// not analyse: outside the exempt functions it is refused
+		mr := 0
+		for _, b := range fn.Blocks {
+			for _, in := range b.Instrs {
+				if c, ok := in.(ssa.CallInstruction); ok {
+					if sc := c.Common().StaticCallee(); sc != nil && sc.String() == "(reflect.Value).MapRange" {
+						mr++
+						pos, src := w.posAndSrc(in)
+						out = append(out, &Obligation{Name: fmt.Sprintf("%s/maporder#iter%d", name, mr), Kind: "maporder", Func: name, Pos: pos, Src: src, PC: "true", Goal: "no map iterator", Props: []string{"C03"},
+							Comment: "a map is walked through reflect.Value.MapRange (Go's map order): the effects of such a loop are not analysed, the keys have to be put in a fixed order first", Custom: "(set-logic ALL)(assert true)"})
+					}
+				}
+			}
+		}
 		sites := findOrderSites(fn)
 		for si, s := range sites {
 			nsites++
